@@ -43,6 +43,8 @@ type FnCtx struct {
 	lastCall   string
 	letVals    map[string]Val
 	lastSort   *sortInfo
+	preDeferSite string
+	noClosure  bool
 }
 
 type deferRec struct {
@@ -284,7 +286,7 @@ func (fc *FnCtx) execBody(entry *State, params []Val) (err error) {
 	if len(fn.Blocks) == 0 {
 		return unsupportedf("function %s has no body", fn.String())
 	}
-	if fn.Recover != nil {
+	if usesRecover(fn) {
 		return unsupportedf("function %s uses recover", fn.String())
 	}
 	fc.env = map[ssa.Value]Val{}
@@ -311,8 +313,27 @@ func (fc *FnCtx) execBody(entry *State, params []Val) (err error) {
 			li.con = fc.con.Loops[li.ordinal]
 		}
 	}
+	if fc.parent == nil {
+		// ancestors of every block in the cut DAG, for slicing the background facts of an obligation
+		fc.vc.reachTo = map[int]map[int]bool{}
+		for _, b := range order {
+			set := map[int]bool{b.Index: true}
+			for _, p := range b.Preds {
+				if fc.isBackEdge(p, b) {
+					continue
+				}
+				for k := range fc.vc.reachTo[p.Index] {
+					set[k] = true
+				}
+			}
+			fc.vc.reachTo[b.Index] = set
+		}
+	}
 	for _, b := range order {
 		fc.curBlock = b
+		if fc.parent == nil {
+			fc.vc.curTag = b.Index
+		}
 		// entry state of the block
 		var st *State
 		if b == fn.Blocks[0] {
@@ -513,6 +534,13 @@ func (fc *FnCtx) execInstr(ins ssa.Instruction) (terminated bool, err error) {
 		if err != nil {
 			return false, unsupportedf("%v", err)
 		}
+		if l.Kind == locConst {
+			if len(l.Path) != 0 || v.Loc != nil {
+				return false, unsupportedf("partial store into immutable local struct")
+			}
+			fc.env[x.Addr] = Val{Typ: x.Addr.Type(), Loc: &Loc{Kind: locConst, Ref: v.T, Typ: l.Typ}}
+			return false, nil
+		}
 		if addr.Loc == nil {
 			fc.safe("nil", mkNot(mkEq(addr.T, "0")), "nil dereference in store")
 		}
@@ -546,7 +574,12 @@ func (fc *FnCtx) execInstr(ins ssa.Instruction) (terminated bool, err error) {
 			}
 			rs = append(rs, v)
 		}
-		fc.exits = append(fc.exits, &exitInfo{state: fc.cur, results: rs, block: x.Block(), site: fc.siteDesc()})
+		site := fc.siteDesc()
+		if fc.preDeferSite != "" {
+			site = fc.preDeferSite
+			fc.preDeferSite = ""
+		}
+		fc.exits = append(fc.exits, &exitInfo{state: fc.cur, results: rs, block: x.Block(), site: site})
 		return true, nil
 	case *ssa.Panic:
 		fc.safe("panic", "false", "explicit panic reachable")
@@ -715,8 +748,73 @@ func (fc *FnCtx) typeID(t types.Type) string {
 	return n
 }
 
+// immutableLocalStruct: an allocated struct that is written exactly once as a whole and otherwise only read
+// (the spilled copy of a value receiver or range variable). It is kept as a value, not as a heap object.
+func immutableLocalStruct(x *ssa.Alloc) bool {
+	t := x.Type().(*types.Pointer).Elem()
+	if _, ok := t.Underlying().(*types.Struct); !ok || isGhostStruct(t) {
+		return false
+	}
+	stores := 0
+	for _, r := range *x.Referrers() {
+		switch u := r.(type) {
+		case *ssa.Store:
+			if u.Addr != ssa.Value(x) || u.Val == ssa.Value(x) {
+				return false
+			}
+			stores++
+		case *ssa.UnOp:
+			if u.Op != token.MUL {
+				return false
+			}
+		case *ssa.DebugRef:
+		case *ssa.FieldAddr:
+			for _, fr := range *u.Referrers() {
+				switch fu := fr.(type) {
+				case *ssa.UnOp:
+					if fu.Op != token.MUL {
+						return false
+					}
+				case *ssa.DebugRef:
+				case *ssa.Call:
+					c := fu.Common()
+					if c.IsInvoke() {
+						return false
+					}
+					f, ok := c.Value.(*ssa.Function)
+					if !ok || !readOnlyPtrFuncs[f.String()] {
+						return false
+					}
+				case *ssa.FieldAddr:
+					for _, fr2 := range *fu.Referrers() {
+						if u2, ok := fr2.(*ssa.UnOp); !ok || u2.Op != token.MUL {
+							if _, isDbg := fr2.(*ssa.DebugRef); !isDbg {
+								return false
+							}
+						}
+					}
+				default:
+					return false
+				}
+			}
+		default:
+			return false
+		}
+	}
+	return stores == 1
+}
+
+// readOnlyPtrFuncs: modelled functions that only read through their pointer arguments.
+var readOnlyPtrFuncs = map[string]bool{
+	"(*github.com/tokenized/pkg/bitcoin.Hash32).Equal": true,
+}
+
 func (fc *FnCtx) execAlloc(x *ssa.Alloc) error {
 	t := x.Type().(*types.Pointer).Elem()
+	if immutableLocalStruct(x) {
+		fc.env[x] = Val{Typ: x.Type(), Loc: &Loc{Kind: locConst, Ref: fc.vc.zeroValue(t), Typ: t}}
+		return nil
+	}
 	r := fc.newRef()
 	switch u := t.Underlying().(type) {
 	case *types.Struct:
@@ -1522,6 +1620,32 @@ func (fc *FnCtx) safeKind(kind, cond, desc string) {
 func (c *Contract) hasSafetyKind(kind string) bool {
 	for _, s := range c.Safety {
 		if s == "+"+kind {
+			return true
+		}
+	}
+	return false
+}
+
+// usesRecover: a call of the recover builtin in the function or one of its closures (fn.Recover alone only means
+// the function has a defer).
+func usesRecover(fn *ssa.Function) bool {
+	check := func(f *ssa.Function) bool {
+		for _, b := range f.Blocks {
+			for _, ins := range b.Instrs {
+				if c, ok := ins.(ssa.CallInstruction); ok {
+					if bi, ok := c.Common().Value.(*ssa.Builtin); ok && bi.Name() == "recover" {
+						return true
+					}
+				}
+			}
+		}
+		return false
+	}
+	if check(fn) {
+		return true
+	}
+	for _, a := range fn.AnonFuncs {
+		if check(a) {
 			return true
 		}
 	}
